@@ -1,10 +1,15 @@
 #!/bin/bash
-# selftest/try_seed.sh <PROPERTY-ID> <seed-dir> [tier]   -- applies the seeded patch to /repo, runs the check, and undoes it straight afterwards
+# selftest/try_seed.sh <PROPERTY-ID> <seed-dir> [tier]   -- applies the seeded patch to /repo, runs the check, and undoes it straight afterwards.
+# With VP_TRY_REPO=<scratch worktree of /repo's HEAD> the patch is applied there instead and the check rebuilds from that tree (VP_REPO): several seeds can then be
+# tried side by side (one lane per worktree, different properties per lane).
 ID=$1; SD=$(realpath "$2"); TIER=${3:-quick}
+R=${VP_TRY_REPO:-/repo}
 cd /verif
-git -C /repo diff --quiet || { echo "/repo is dirty"; exit 2; }
-git -C /repo apply $SD/patch.diff || { echo "patch does not apply"; exit 2; }
-trap 'git -C /repo checkout -- .' EXIT
-./check $ID --tier $TIER > /tmp/vp_try_$ID.log 2>&1; RC=$?
-grep -E "^case:|^FAIL|VIOLATION|KNOWN-FINDING|^OK|INFRASTRUCTURE" /tmp/vp_try_$ID.log | head -8
+[ "$R" = /repo ] || { [ -d "$R" ] || git -C /repo worktree add -f --detach "$R" HEAD >/dev/null 2>&1; git -C "$R" checkout -q --detach "$(git -C /repo rev-parse HEAD)"; }
+git -C $R diff --quiet || { echo "$R is dirty"; exit 2; }
+git -C $R apply $SD/patch.diff || { echo "patch does not apply"; exit 2; }
+trap 'git -C $R checkout -- .' EXIT
+LOG=/tmp/vp_try_${ID}_$(basename $R).log
+if [ "$R" = /repo ]; then ./check $ID --tier $TIER > $LOG 2>&1; RC=$?; else VP_REPO=$R ./check $ID --tier $TIER > $LOG 2>&1; RC=$?; fi
+grep -E "^case:|^FAIL|VIOLATION|KNOWN-FINDING|^OK|INFRASTRUCTURE" $LOG | head -8
 echo "check exit=$RC"
